@@ -103,6 +103,8 @@ func runParam(c paramCase) (o paramObs) {
 		env.Set("IFS", ",")
 	case "empty":
 		env.Set("IFS", "")
+	case "mb":
+		env.Set("IFS", "\u00e9,") // the first character takes two bytes
 	default:
 		env.Unset("IFS")
 	}
